@@ -744,12 +744,13 @@ Error BaseBuilder::embed_const_pool(const Label& label, const ConstPool& pool) {
     return report_error(make_error(Error::kInvalidLabel));
   }
 
-  ASMJIT_PROPAGATE(align(AlignMode::kData, uint32_t(pool.alignment())));
-  ASMJIT_PROPAGATE(bind(label));
-
+  // Create the data node first - nothing can fail once the label is bound.
   EmbedDataNode* node;
   ASMJIT_PROPAGATE(new_embed_data_node(Out(node), TypeId::kUInt8, nullptr, pool.size()));
   ASMJIT_ASSUME(node != nullptr);
+
+  ASMJIT_PROPAGATE(align(AlignMode::kData, uint32_t(pool.alignment())));
+  ASMJIT_PROPAGATE(bind(label));
 
   pool.fill(node->data());
   add_node(node);
